@@ -420,3 +420,67 @@ def every_call_is_recorded_by_value(ctx):
         else:
             n_fresh += 1
     ctx.check(n_fresh >= 2, 'listify#fresh', 'iterable inputs are rebuilt ([listify(i) for i in x] / listify(list(x)) / the 0-d element)', 'listify no longer rebuilds its input', g, g.node)
+
+
+@rule('C20.i', min_instances=1)
+def parameter_files_are_read_not_imported_once(ctx):
+    """read_import (behind read_raw_file / read_converge_file / the support scripts) reads a parameter file through the import machinery; the interpreter caches modules by name, so unless the entry is evicted on every path after the import a file that was rewritten - same monitor written again after more iterations, or another trajectory under the same name - is read back as its FIRST contents"""
+    f = ctx.func(MU + ':read_import')
+    imports = []
+    for n in walk_no_nested(f.node):
+        if isinstance(n, ast.Constant) and isinstance(n.value, str) and ('import {' in n.value or n.value.startswith('import ') or ' import ' in n.value):
+            imports.append(n)
+        if isinstance(n, ast.Call) and callee_text(n).split('.')[-1] in ('import_module', '__import__'):
+            imports.append(n)
+    if not imports:
+        ctx.ok('read_import#cache', 'the file is not read through the import machinery', f, f.node)
+        return
+    # eviction: sys.modules.pop(<name>, ...) / del sys.modules[<name>] / importlib.reload(...) in a finally block, or after the imports on every path
+
+    def is_evict(n):
+        if isinstance(n, ast.Call) and isinstance(n.func, ast.Attribute) and n.func.attr == 'pop' and unparse(n.func.value).endswith('modules'):
+            return True
+        if isinstance(n, ast.Delete) and any(isinstance(tg, ast.Subscript) and unparse(tg.value).endswith('modules') for tg in n.targets):
+            return True
+        return isinstance(n, ast.Call) and callee_text(n).split('.')[-1] == 'reload'
+    in_finally = False
+    for n in walk_no_nested(f.node):
+        if isinstance(n, ast.Try) and any(imp in list(ast.walk(n)) for imp in imports):
+            for st in n.finalbody:
+                if any(is_evict(x) for x in ast.walk(st)) and not guards_of(st, stop=n):
+                    in_finally = True
+    ctx.check(in_finally, 'read_import#cache', 'the module entry is evicted in the finally block of the import (every call reads the file as it is now)',
+              'read_import imports the parameter file as a module and leaves it in sys.modules: a second read of a file of the same name returns the first contents, whatever was written since',
+              f, enclosing_stmt(imports[0]) or f.node, statement='import of the parameter file without eviction from sys.modules')
+
+
+@rule('C20.j', min_instances=1)
+def elementwise_scaling_only_for_sized_values(ctx):
+    """Monitor.__call__ scales the cost by k elementwise (type=iter) or as a scalar; the selector must send unsized numpy values - 0-d arrays, which Powell's squeeze(cost(x)) produces and which DO have a __len__ attribute - down the scalar branch: a selector that is just hasattr(y, '__len__') makes the k-scaled store raise "iteration over a 0-d array" (the sibling listify treats ndim == 0 as a scalar)"""
+    M = ctx.cls(MO + ':Monitor')
+    f = ctx.touch(M.methods['__call__'])
+    yp = f.args()[2]
+    Y = ('name', yp)
+    b = T.Builder()
+    sel = None
+    for st in stmts_of(f.node):
+        for c in calls_where(st, lambda c: isinstance(c.func, ast.Attribute) and c.func.attr == '_k', include_lambda=False):
+            if len(c.args) >= 2:
+                sel = T.simp(b.t(c.args[1]))
+            else:
+                v = kwarg(c, 'type', None)
+                sel = T.simp(b.t(v)) if v is not None else ('const', None)
+        if isinstance(st, ast.Assign) and all(isinstance(tg, ast.Name) for tg in st.targets):
+            b.exec_stmt(st)
+    ctx.need(sel is not None, 'Monitor.__call__ no longer scales through self._k(y, <type>)')
+    if sel[0] != 'ifexp':
+        ctx.ok('Monitor.__call__#selector', 'one scaling branch for every value (%s)' % T.show(sel)[:40], f, f.node)
+        return
+    cond = sel[1]
+    atoms = [a for a in T.subterms(cond) if isinstance(a, tuple) and a and a[0] in ('call', 'attr', 'cmp')]
+    shown = ' '.join(T.show(a) for a in atoms)
+    bare_len = any(a[0] == 'call' and T.show(a[1]) == 'hasattr' and len(a[2]) == 2 and a[2][0] == Y and a[2][1] == ('const', '__len__') for a in atoms)
+    sized = any(w in shown for w in ('ndim', 'shape', 'size', 'isiterable', 'isinstance', 'list_or_tuple'))
+    ctx.check(not bare_len or sized, 'Monitor.__call__#selector', 'elementwise scaling is not selected by hasattr(y, "__len__") alone',
+              'Monitor.__call__ selects elementwise k-scaling with `%s`: a 0-d numpy array (Powell\'s energies) has __len__ but cannot be iterated, so a monitor with k set raises TypeError when it records one'
+              % T.show(cond)[:80], f, f.node, statement='elementwise k-scaling selected by hasattr(y, "__len__")')
